@@ -42,6 +42,7 @@ EXPLANATION = (
     "like-named constructor parameters. OS fault behaviour itself and races are not decided. "
     "(U6) The protocol machine finds no second upload-handler invocation / chain consultation over any activation sequence, and the content handed over is buffer[:size] (C07.S2). "
     "(U5, values) the configured upload size limit reaches the handler unchanged (abstract evaluation with 0)."
+    ' (U7) the configured token list reaches the upload handler unfiltered: no store to ServerConfig.titan_auth_tokens and no step of from_toml / get_upload_handler / FileUploadHandler.__init__ contains a filtering or element-rewriting comprehension, filter()/map() or a trimming call.'
 )
 
 HANDLER = "server.handler:FileUploadHandler"
